@@ -38,15 +38,17 @@ pub fn rows_to_batch(schema: &SchemaRef, cols: &[(String, Ty)], rows: &[&Row]) -
     RecordBatch::try_new(schema.clone(), arrays).expect("harness batch")
 }
 
-/// Split a table's rows into `nparts` partitions, each into batches of random sizes.
-pub fn table_partitions(t: &Table, nparts: usize, max_batch: usize, rng: &mut Rng) -> Vec<Vec<RecordBatch>> {
-    let schema = table_schema(t);
+/// Physical layout of one table: partitions → batches → row indices into `Table::rows`.
+pub type Layout = Vec<Vec<Vec<usize>>>;
+
+/// Random layout: rows spread over `nparts` partitions, each cut into batches of random sizes.
+pub fn random_layout(t: &Table, nparts: usize, max_batch: usize, rng: &mut Rng) -> Layout {
     let nparts = nparts.max(1);
-    let mut parts: Vec<Vec<&Row>> = vec![vec![]; nparts];
-    for (i, r) in t.rows.iter().enumerate() {
+    let mut parts: Vec<Vec<usize>> = vec![vec![]; nparts];
+    for i in 0..t.rows.len() {
         // contiguous-ish assignment with some randomness
         let p = if rng.chance(1, 4) { rng.usize(nparts) } else { i * nparts / t.rows.len().max(1) };
-        parts[p.min(nparts - 1)].push(r);
+        parts[p.min(nparts - 1)].push(i);
     }
     parts
         .into_iter()
@@ -54,24 +56,49 @@ pub fn table_partitions(t: &Table, nparts: usize, max_batch: usize, rng: &mut Rn
             let mut out = vec![];
             let mut i = 0;
             for c in rng.chunks(rows.len(), max_batch.max(1)) {
-                out.push(rows_to_batch(&schema, &t.cols, &rows[i..i + c]));
+                out.push(rows[i..i + c].to_vec());
                 i += c;
             }
             if out.is_empty() && rng.bool() {
-                out.push(RecordBatch::new_empty(schema.clone()));
+                out.push(vec![]); // an explicit empty batch
             }
             out
         })
         .collect()
 }
 
-pub fn register_db(ctx: &SessionContext, db: &Db, nparts: usize, max_batch: usize, rng: &mut Rng) -> Result<(), DataFusionError> {
-    for t in &db.tables {
-        let parts = table_partitions(t, nparts, max_batch, rng);
-        let mt = MemTable::try_new(table_schema(t), parts)?;
+pub fn table_partitions(t: &Table, layout: &Layout) -> Vec<Vec<RecordBatch>> {
+    let schema = table_schema(t);
+    layout
+        .iter()
+        .map(|p| {
+            p.iter()
+                .map(|b| {
+                    let rows: Vec<&Row> = b.iter().map(|i| &t.rows[*i]).collect();
+                    rows_to_batch(&schema, &t.cols, &rows)
+                })
+                .collect()
+        })
+        .collect()
+}
+
+pub type DbLayout = Vec<Layout>;
+
+pub fn random_db_layout(db: &Db, nparts: usize, max_batch: usize, rng: &mut Rng) -> DbLayout {
+    db.tables.iter().map(|t| random_layout(t, nparts, max_batch, rng)).collect()
+}
+
+pub fn register_db_layout(ctx: &SessionContext, db: &Db, layout: &DbLayout) -> Result<(), DataFusionError> {
+    for (t, l) in db.tables.iter().zip(layout.iter()) {
+        let mt = MemTable::try_new(table_schema(t), table_partitions(t, l))?;
         ctx.register_table(t.name.as_str(), Arc::new(mt))?;
     }
     Ok(())
+}
+
+pub fn register_db(ctx: &SessionContext, db: &Db, nparts: usize, max_batch: usize, rng: &mut Rng) -> Result<(), DataFusionError> {
+    let layout = random_db_layout(db, nparts, max_batch, rng);
+    register_db_layout(ctx, db, &layout)
 }
 
 pub fn default_ctx(target_partitions: usize, batch_size: usize) -> SessionContext {
@@ -206,4 +233,33 @@ pub fn db_to_json(db: &Db) -> vcommon::Json {
         .iter()
         .map(|t| vcommon::json!({"name": t.name, "cols": t.cols.iter().map(|(n, ty)| format!("{n}:{ty:?}")).collect::<Vec<_>>(), "rows": rows_to_json(&t.rows)}))
         .collect::<Vec<_>>())
+}
+
+pub fn db_from_json(j: &vcommon::Json) -> Option<Db> {
+    let mut tables = vec![];
+    for t in j.as_array()? {
+        let name = t.get("name")?.as_str()?.to_string();
+        let mut cols = vec![];
+        for c in t.get("cols")?.as_array()? {
+            let (n, ty) = c.as_str()?.split_once(':')?;
+            let ty = match ty {
+                "Int" => Ty::Int,
+                "Float" => Ty::Float,
+                "Str" => Ty::Str,
+                "Bool" => Ty::Bool,
+                _ => return None,
+            };
+            cols.push((n.to_string(), ty));
+        }
+        let mut rows = vec![];
+        for r in t.get("rows")?.as_array()? {
+            rows.push(r.as_array()?.iter().zip(cols.iter()).map(|(v, (_, ty))| Value::from_json(v, *ty)).collect());
+        }
+        tables.push(Table { name, cols, rows });
+    }
+    Some(Db { tables })
+}
+
+pub fn layout_from_json(j: &vcommon::Json) -> Option<DbLayout> {
+    serde_json::from_value(j.clone()).ok()
 }
